@@ -575,6 +575,12 @@ func coqCase(c *Case, obs *Obs) string {
 	ops := make([]string, len(c.Ops))
 	mounted := false
 	for i, o := range c.Ops {
+		if c.FS && !mounted && o.Op != "mount" && o.Op != "check" && o.Op != "off" && o.Op != "on" {
+			// nothing is mounted yet (only a shrunk script gets here): the harness skips the op; SRel with nothing
+			// parked is the model's no-op with the same output
+			ops[i] = "SRel"
+			continue
+		}
 		switch o.Op {
 		case "mount":
 			ops[i] = fmt.Sprintf("SMount %s %s %s", coqFault(o, outOf(obs, i)), hx.CoqBool(c.NoPrefetch), hx.CoqBool(c.NoBG))
